@@ -144,7 +144,12 @@ std::unique_ptr<Oomd::Engine::Ruleset> compileRuleset(
 
   // post_action_delay field is optional
   if (ruleset.post_action_delay.size()) {
-    post_action_delay = std::stoi(ruleset.post_action_delay);
+    try {
+      post_action_delay = std::stoi(ruleset.post_action_delay);
+    } catch (const std::exception&) {
+      OLOG << "Ruleset post_action_delay is not an integer";
+      return nullptr;
+    }
     if (post_action_delay < 0) {
       OLOG << "Ruleset post_action_delay must be non-negative";
       return nullptr;
@@ -153,7 +158,12 @@ std::unique_ptr<Oomd::Engine::Ruleset> compileRuleset(
 
   // prekill_hook_timeout field is optional
   if (ruleset.prekill_hook_timeout.size()) {
-    prekill_hook_timeout = std::stoi(ruleset.prekill_hook_timeout);
+    try {
+      prekill_hook_timeout = std::stoi(ruleset.prekill_hook_timeout);
+    } catch (const std::exception&) {
+      OLOG << "Ruleset prekill_hook_timeout is not an integer";
+      return nullptr;
+    }
     if (prekill_hook_timeout < 0) {
       OLOG << "Ruleset prekill_hook_timeout must be non-negative";
       return nullptr;
